@@ -3,7 +3,7 @@
    The model is Html/Model.v (all of /repo/html/lex.go and ToHash over the generated table); [run c n l] is a
    caller that calls Next n times whatever it returns; [cfg_ok c] says the two template delimiters contain no
    NUL byte (c = no_tmpl: NewLexer; the six predefined pairs satisfy it, cfg_ok_predefined). *)
-From Verif Require Import Common.Base Common.Lx Gen.Tables Html.Model Html.ListLemmas Html.Safety Html.Step Html.Spec Html.RawText Html.Proofs.
+From Verif Require Import Common.Base Common.Lx Gen.Tables Html.Model Html.ListLemmas Html.Safety Html.Step Html.Spec Html.RawText Html.Proofs Html.Template.
 
 (* C01 — no panic, no endless loop: n calls of Next succeed on every byte string, with or without template
    delimiters, whatever the caller does after an error. *)
@@ -122,3 +122,44 @@ Theorem html_svg_quote_refuted :
   exists l', next no_tmpl (new_lexer d) = Ok (SvgT, Some (mkSl 0 (len d)), l') /\ len d = 34.
 Proof. exact html_svg_quote_refuted_proof. Qed.
 Print Assumptions html_svg_quote_refuted.
+
+(* C09 — templates, text: a delimited region [p,q) that starts where the lexer is in text is returned as exactly
+   one Template token, HasTemplate() = true (is_region: q is the end of the first closing delimiter outside quoted
+   strings, or the end of input). *)
+Theorem html_template_atomic :
+  forall c d l p q, cfg_ok c -> html_inv d l -> intag l = false -> rawtag l = 0 ->
+    p = lpos (lz l) -> is_region c d p q ->
+    exists l', next c l = Ok (TemplateT, Some (mkSl p (q - p)), l') /\ lhas l' = true /\ lpos (lz l') = q.
+Proof. exact html_template_token_proof. Qed.
+Print Assumptions html_template_atomic.
+
+(* C09 — templates, text (converse): an ordinary Text token contains no opening delimiter and reports none. *)
+Theorem html_template_text_clean :
+  forall c d l v l', cfg_ok c -> tb c <> [] -> html_inv d l -> intag l = false -> rawtag l = 0 ->
+    next c l = Ok (TextT, Some v, l') -> ltext l' = Some v ->
+    lhas l' = false /\ forall p, so v <= p < so v + sn v -> prefixb (tb c) (skipz p d) = false.
+Proof. exact html_text_no_template_proof. Qed.
+Print Assumptions html_template_text_clean.
+
+(* C09 — templates, tag name / attribute (partial): a region that follows a tag name or an attribute (directly or
+   after whitespace) starts an Attribute token that contains the whole region and has HasTemplate() = true.
+   NOT proved (correspondence + oracle only): regions further inside a name or a value; the converse. *)
+Theorem html_template_atomic_attr_partial :
+  forall c d l p q, cfg_ok c -> tb_plain c -> html_inv d l -> intag l = true ->
+    lstart (lz l) = lpos (lz l) -> lpos (lz l) <= p ->
+    (forall i, lpos (lz l) <= i < p -> is_ws (getz d i) = true) -> is_region c d p q ->
+    exists v l', next c l = Ok (AttributeT, Some v, l') /\ lhas l' = true /\ so v = lpos (lz l) /\ q <= so v + sn v.
+Proof. exact html_template_attr_proof. Qed.
+Print Assumptions html_template_atomic_attr_partial.
+
+(* C09 — templates, raw text (partial): with a delimiter that does not start with '<', a region at the start of
+   the content of a raw-text element lies inside the Text token, HasTemplate() = true.
+   NOT proved (correspondence + oracle only): regions later in the content; the converse.  For delimiters that
+   start with '<' the clause is false (known finding c09-template:rawtext-lt). *)
+Theorem html_template_atomic_rawtext_partial :
+  forall c d l p q, cfg_ok c -> html_inv d l -> intag l = false ->
+    rawtag l <> 0 -> rawtag l <> html_hash_Plaintext -> (exists x t, tb c = x :: t /\ x <> 60) ->
+    p = lpos (lz l) -> is_region c d p q ->
+    exists v l', next c l = Ok (TextT, Some v, l') /\ lhas l' = true /\ so v = p /\ q <= so v + sn v.
+Proof. exact html_template_rawtext_proof. Qed.
+Print Assumptions html_template_atomic_rawtext_partial.
